@@ -39,7 +39,7 @@ Whens(k, b) ==
     THEN CASE b = "noready" -> {"starting"}
            [] b = "stuck" -> {"polling"}
            [] b \in {"exit0", "exit3"} -> {"running", "exiting", "reaped"}
-           [] OTHER -> {"running"}
+           [] OTHER -> {"running"}      \* (sleep, ignore, fork, done0, done3, donesig, nodone)
     ELSE CASE b = "crash" -> {"launching", "nochild", "exiting", "reaped"}
            [] b \in {"exit0", "exit3", "fork"} -> {"launching", "nochild", "running", "exiting", "reaped"}
            [] OTHER -> {"launching", "nochild", "running"}
@@ -73,7 +73,7 @@ None == Step("none", "", {})
 FirstBody(s) ==
   LET idx == {i \in 1..Len(s.hs) :
                  DoNoopBody(s, i) \cup DoRespond(s, i) \cup DoStartBody(s, i) \cup DoStopBody(s, i) \cup DoStopPush(s, i) \cup DoStopKill(s, i) \cup DoKillBodyBasic(s, i)
-                 \cup DoKUnblock(s, i) \cup DoKillSend(s, i) \cup DoTransBody(s, i) \cup DoTransCommit(s, i) \cup DoKBody(s, i) \cup DoKClose(s, i)
+                 \cup DoKPush(s, i) \cup (IF SuppressTerm THEN {} ELSE DoKGrace(s, i)) \cup DoKillSend(s, i) \cup DoTransBody(s, i) \cup DoTransCommit(s, i) \cup DoKBody(s, i) \cup DoKClose(s, i)
                  \cup (IF SuppressTerm THEN {} ELSE DoKTerm(s, i)) \cup DoKInt(s, i) \cup DoKKill9(s, i)
                  \cup DoKEnd(s, i) # {}}
   IN IF idx = {} \/ SuppressBodies THEN None
@@ -81,6 +81,8 @@ FirstBody(s) ==
               h == s.hs[i]
           IN CASE DoKBody(s, i) # {} -> Step("KWalk", IF s.rpc = "up" /\ Listening(s) /\ s.dev # "INIT" THEN "EXIT" ELSE "", DoKBody(s, i))
                [] DoKClose(s, i) # {} -> Step("KClose", "", DoKClose(s, i))
+               [] DoKPush(s, i) # {} -> Step("Nop", "", DoKPush(s, i))
+               [] (~SuppressTerm) /\ DoKGrace(s, i) # {} -> Step("Nop", "", DoKGrace(s, i))
                [] (~SuppressTerm) /\ DoKTerm(s, i) # {} -> Step("KSig", IF s.child = "running" THEN "TERM" ELSE "", DoKTerm(s, i))
                [] DoKInt(s, i) # {} -> Step("KSig", IF s.child = "running" THEN "INT" ELSE "", DoKInt(s, i))
                [] DoKKill9(s, i) # {} -> Step("KSig", "KILL", DoKKill9(s, i))
@@ -91,11 +93,12 @@ FirstBody(s) ==
                [] DoKillBodyBasic(s, i) # {} -> Step("Nop", "", DoKillBodyBasic(s, i))
                [] DoKillSend(s, i) # {} -> Step("Body", "Kill", DoKillSend(s, i))
                [] OTHER -> Step("Nop", "", DoNoopBody(s, i) \cup DoStartBody(s, i) \cup DoStopBody(s, i) \cup DoStopPush(s, i)
-                                             \cup DoStopKill(s, i) \cup DoKUnblock(s, i))
+                                             \cup DoStopKill(s, i))
 
 Eager(s) ==
   LET b == FirstBody(s) IN
-  IF b.a # "none" THEN b
+  IF DoDoneExit(s) # {} THEN Step("Nop", "", DoDoneExit(s))
+  ELSE IF b.a # "none" THEN b
   ELSE IF DoReaperStart(s) # {} THEN Step("Nop", "", DoReaperStart(s))
   ELSE IF DoProc(s) # {} /\ ~NextHeld(s) THEN Step("Proc", "", DoProc(s))
   ELSE IF DoLDial(s) # {} THEN Step("LDial", "", DoLDial(s))
@@ -126,7 +129,7 @@ Advance(s) ==
 
 ProbeNow(s) ==
   \/ NP.at = "now" /\ pi > 1
-  \/ NP.at = "mid" /\ \E j \in 1..Len(s.hs) : s.hs[j].r = "Kill" /\ s.hs[j].pc = "term"
+  \/ NP.at = "mid" /\ \E j \in 1..Len(s.hs) : s.hs[j].r = "Kill" /\ s.hs[j].pc \in {"grace", "term"}
 
 Choice(s) ==
   IF ~Ok(s) THEN None
